@@ -107,11 +107,11 @@ def twin_key(ins, mode):
 
 
 # ------------------------------------------------------------------------------------------------
-def validate(ctx, paths, nshards, parallel=None):
+def validate(ctx, paths, nshards, parallel=None, twin_filter=True):
     shards = []
     for p in paths:
         shards += ctx.shard(p, nshards, by_session=True)
-    results = ctx.tlc_trace_many("Trace_C01", shards, parallel=parallel, timeout=3000, heap="3g")
+    results = ctx.tlc_trace_many("Trace_C01", shards, parallel=parallel, timeout=3000, heap="2g")
     tags = collections.Counter()
     per_mn = collections.defaultdict(collections.Counter)
     unsure_forms, agreed_forms = set(), set()
@@ -170,7 +170,7 @@ def validate(ctx, paths, nshards, parallel=None):
                     ctx.reject(x)
     dropped32 = 0
     for key, recs in pending32:
-        if key in agreed_forms and key not in unsure_forms:
+        if not twin_filter or (key in agreed_forms and key not in unsure_forms):
             for x in recs:
                 ctx.reject(x)
         else:
@@ -206,8 +206,8 @@ def run(ctx):
     q = ctx.quick
     sizes = corpus_sizes()
     # amd64: every template at least once in the quick tier
-    n64, n32 = (2000, 900) if q else (44000, 16000)
-    k64, k32 = (4, 2) if q else (11, 4)
+    n64, n32 = (2000, 900) if q else (40000, 14000)
+    k64, k32 = (4, 2) if q else (10, 4)
     jobs = []
     for i in range(k64):
         jobs.append(("c01", ["--mode", "record", "--arch", "amd64", "--corpus", CORPUS, "--n", n64 // k64, "--part", i, "--parts", k64],
@@ -217,7 +217,7 @@ def run(ctx):
                      "x86-%d.ndjson" % i, {"extra_env": {"VERIF_SEED": str(ctx.seed), "C01_CORPUS": CORPUS}}))
     par = int(os.environ.get("C01_PAR", "0"))
     paths = ctx.record_many(jobs, parallel=par or 6)
-    tags = validate(ctx, paths, 2, parallel=par or (12 if q else 15))
+    tags = validate(ctx, paths, 2, parallel=par or 12)
     if os.environ.get("C01_DUMP"):                      # development aid: the raw rejection records
         with open(os.environ["C01_DUMP"], "w") as f:
             json.dump(ctx.rejections, f)
@@ -242,7 +242,8 @@ def _revalidate(ctx, begin):
     with open(inp, "w") as f:
         f.write(json.dumps(begin) + "\n")
     out = ctx.record("c01", ["--mode", "replay", "--in", inp], "replay.ndjson", extra_env={"C01_CORPUS": CORPUS})
-    validate(ctx, [out], 1)
+    # a replayed 32-bit instance was admitted by the twin rule in the run that reported it
+    validate(ctx, [out], 1, twin_filter=False)
 
 
 def replay(ctx, path):
